@@ -1,6 +1,6 @@
 module github.com/tencent/goom/verifharness
 
-go 1.16
+go 1.18
 
 require github.com/tencent/goom v0.0.0
 
